@@ -25,6 +25,7 @@ Residue: real timeouts/scheduler, TLS, retries after connection errors are separ
 import FhVerif.Proofs.ClientConn
 import FhVerif.Proofs.Pipeline
 import FhVerif.Gen.PipeShape
+import FhVerif.Gen.PoolShape
 
 namespace Fh.Props.C04
 open Fh Fh.Model.CC Fh.Proofs.ClientConn
@@ -112,6 +113,21 @@ theorem chR_drained_after_both_stopped :
        "for len(chs.chR) > 0 => recv chs.chR", "for len(chs.chR) > 0 => send w.done"] ∧
     Gen.pipeJoins_reader = ["for true => recv chR", "for true | default => recv chR"] := by decide
 
+/-- transport.RoundTrip: after AcquireConn every way out passes through exactly one of CloseConn / ReleaseConn, or hands
+    the connection to the close callback of the streamed body (which does one of the two): no exit leaks the
+    connection's slot, and every error exit (write deadline, request write / flush error, read deadline, response read
+    error incl. ErrBodyTooLarge) CLOSES the connection — a connection on which a request or a response was cut short is
+    never pooled. -/
+theorem roundTrip_exits_close_or_release : Gen.rtShape_RoundTrip =
+    ["AcquireConn", "if err != nil | return",
+     "if err != nil | CloseConn", "if err != nil | return",
+     "if err != nil | CloseConn", "if err != nil | return",
+     "if err != nil | CloseConn", "if err != nil | return",
+     "if err != nil | CloseConn", "if err != nil | return",
+     "if customStreamBody && resp.bodyStream != nil | stream close callback installed",
+     "if customStreamBody && resp.bodyStream != nil | return",
+     "if closeConn | CloseConn", "else of closeConn | ReleaseConn", "return"] := by decide
+
 /-- A streamed body can also be dropped without CloseBodyStream: by ReleaseResponse, by resp.Reset(), or by using the
     same Response for the next Do (which resets it).  For the pool that is the same event as an early close after
     `readK` bytes (`Call.readK`), and the release-vs-close decision must be taken from the framing the body was read
@@ -142,8 +158,8 @@ theorem toy_wf (t hi lo c : UInt8) (body : Bytes) (isHead : Bool)
 /-- request 1: streamed 8-byte body (MaxResponseBodySize 2), the caller reads 1 byte and closes the stream without
     error; request 2 reuses the connection -/
 def earlyCloseRun : List Event :=
-  [⟨1, none, ⟨false, false, true, 1, 0, false⟩, [1, 0, 8, 0, 0xAA, 9, 0, 0, 0, 7, 7, 7], 12, false⟩,
-   ⟨2, some 0, ⟨false, false, false, 0, 0, false⟩, [2, 0, 0, 0], 4, false⟩]
+  [⟨1, none, ⟨false, false, true, 1, 0, false, false⟩, [1, 0, 8, 0, 0xAA, 9, 0, 0, 0, 7, 7, 7], 12, false⟩,
+   ⟨2, some 0, ⟨false, false, false, 0, 0, false, false⟩, [2, 0, 0, 0], 4, false⟩]
 
 theorem earlyCloseRun_wf : ∀ e ∈ earlyCloseRun, wfEvent toy e := by
   intro e he
@@ -179,14 +195,14 @@ example : readAll toy (fixedCfg 0) (streamOf [(true, [1, 0, 4, 0]), (false, [2, 
 /-! ### non-vacuity of the invariant: a reachable pool with a reused clean connection -/
 
 example : (run toy (fixedCfg 0) init
-    [⟨1, none, ⟨false, false, false, 0, 0, false⟩, toyResp 1 3 false false, 7, false⟩,
-     ⟨2, some 0, ⟨true, false, false, 0, 0, false⟩, toyResp 2 3 false true, 4, false⟩,
-     ⟨3, some 0, ⟨false, false, false, 0, 0, false⟩, toyResp 3 2 true false, 6, false⟩]).map (fun s => (s.pool, s.log.map (·.out))) =
+    [⟨1, none, ⟨false, false, false, 0, 0, false, false⟩, toyResp 1 3 false false, 7, false⟩,
+     ⟨2, some 0, ⟨true, false, false, 0, 0, false, false⟩, toyResp 2 3 false true, 4, false⟩,
+     ⟨3, some 0, ⟨false, false, false, 0, 0, false, false⟩, toyResp 3 2 true false, 6, false⟩]).map (fun s => (s.pool, s.log.map (·.out))) =
     some ([], [.ok [1, 0, 3, 0] [7, 8, 9], .ok [2, 0, 3, 0] [], .ok [3, 0, 2, 1] [21, 22]]) := by decide
 
 /-- a response cut by the server inside the body: error, connection closed, nothing pooled -/
 example : (run toy (fixedCfg 0) init
-    [⟨1, none, ⟨false, false, false, 0, 0, false⟩, toyResp 1 3 false false, 5, false⟩]).map (fun s => (s.pool, s.log.map (·.out))) =
+    [⟨1, none, ⟨false, false, false, 0, 0, false, false⟩, toyResp 1 3 false false, 5, false⟩]).map (fun s => (s.pool, s.log.map (·.out))) =
     some ([], [.err]) := by decide
 
 end Fh.Props.C04
